@@ -440,9 +440,10 @@ def run_case(scn, ctx):
             feats.add("real_missing_next_to_excluded")
         # a file is renamed, the rename recorded with -dr, and only afterwards a pattern matching the new name becomes
         # effective (on the command line of verify / diff, then through a create): the former name must not resurface
-        # (rename detection presupposes pairwise distinct contents - C17 - also among the files that are gone)
+        # (rename detection presupposes pairwise distinct contents - C17 - also among the files that are gone; an empty file
+        # is indistinguishable from a recorded folder that is empty or whose content is all excluded, so none of those)
         contents_now = [w.files[f] for f in w.files if f.startswith("R/")] + gone_contents
-        if not scn["child"] and not any(matches(x, eff) for x in ("ren_src.mov", "ren_dst.qq7")) and "R/ren_src.mov" not in w.files and len(set(contents_now)) == len(contents_now):
+        if not scn["child"] and not any(matches(x, eff) for x in ("ren_src.mov", "ren_dst.qq7")) and "R/ren_src.mov" not in w.files and len(set(contents_now)) == len(contents_now) and b"" not in contents_now:
             w.put("R/ren_src.mov", "content that only the renamed file has")
             r0 = w.create("R", ["md5"])
             w.mv("R/ren_src.mov", "R/ren_dst.qq7")
